@@ -513,8 +513,8 @@ def _lengths(tier):
 
 
 def _shifts(L):
-    # odd, even, larger than half the frame, the frame itself, larger than the frame, tiny
-    return [37, 40, L // 2 + 3, L, L + 9, 7, 1, 2]
+    # odd, even, larger than half the frame, the frame itself, tiny (the property is stated for shift <= length)
+    return [t for t in [37, 40, L // 2 + 3, L, 23, 7, 1, 2] if t <= L]
 
 
 def _signal_lengths(L, s, rng):
@@ -540,7 +540,7 @@ def _enumerate(tier, seed):
                     # first two variants: deterministic rotation covering every (shift, flags, window); then seeded
                     j = bi + 3 * li + 5 * si + 7 * var
                     if var < 2:
-                        s = shifts[(j + var * 3) % 6]
+                        s = shifts[(j + var * 3) % min(6, len(shifts))]
                         flags = _FLAGS[(j * 3 + var * 5) % 8]
                         wname = _WINDOWS[(j + var) % len(_WINDOWS)]
                     else:
@@ -593,11 +593,8 @@ def _enumerate_default(tier, seed):
         }
 
     # raised EFFECTIVE_SUPPORT_THRESHOLD first: only then does the bandwidth term decide the length
-    # (Gabor banks cannot be constructed at such thresholds and are left out of this part)
     for thr in (0.3, 0.05) if tier == "quick" else (0.3, 0.05, 0.1, 0.6):
         for bi, (spec, rate) in enumerate(banks):
-            if spec["kind"] == "gabor":
-                continue
             for pad in (True, False):
                 yield mk(bi, spec, rate, pad, thr)
     for bi, (spec, rate) in enumerate(banks):
@@ -606,8 +603,7 @@ def _enumerate_default(tier, seed):
     if tier == "thorough":
         for bi, spec in enumerate(BANKS_QUICK + BANKS_EXTRA):
             yield mk(2 * bi, spec, RATE, bool(bi % 2), None)
-            if spec["kind"] != "gabor":
-                yield mk(2 * bi, spec, RATE, not bool(bi % 2), 0.2)
+            yield mk(2 * bi, spec, RATE, not bool(bi % 2), 0.2)
 
 
 # ------------------------------------------------------------------------------ interface
@@ -685,7 +681,7 @@ def run(tier: str, seed: int) -> dict:
     )
     bound = (
         "sampling rate 8000 Hz; %d banks (Gabor low_hz 0/20, gammatone, triangular real/analytic, Fbank real/analytic; mel, "
-        "bark, linear, octave; 2-12 filters); frame lengths %s with DFT sizes %s; shifts {37,40,L//2+3,L,L+9,7,1,2}; "
+        "bark, linear, octave; 2-12 filters); frame lengths %s with DFT sizes %s; shifts {37,40,L//2+3,L,23,7,1,2} (<= L); "
         "8 windows incl. a seeded asymmetric one; all 8 flag triples; Gaussian signals of amplitude {0,1e-3,0.02,1,30,50}, "
         "N <= about 3L+3s; float64 only; default-frame-length clause on %d bank/rate/pad/EFFECTIVE_SUPPORT_THRESHOLD configurations (8-44.1 kHz, up to 80 filters, thresholds default/0.05-0.6)"
         % (
